@@ -7,6 +7,8 @@ package app
 import (
 	"context"
 	"fmt"
+	"os"
+	"path/filepath"
 	"sort"
 	"strings"
 	"sync"
@@ -242,6 +244,11 @@ type Shared struct {
 	// templates, menu labels and static symbol contents as db entries, translated entries
 	// under their language) instead of MenuResource getters
 	UseDb bool
+	// UsePo: serve templates and menu labels through resource.PoResource over generated
+	// gettext catalogues in PoDir (default language eng: node -> template and label ->
+	// text in the key domains; per translated language: default text -> translated text)
+	UsePo bool
+	PoDir string
 }
 
 func NewShared(a *App) *Shared {
@@ -426,9 +433,122 @@ func (s *Shared) dbResource(rec *Recorder) resource.Resource {
 
 // Resource builds a resource.Resource over the shared application data that
 // records into rec.
+func poQuote(t string) string {
+	r := strings.NewReplacer("\\", "\\\\", "\"", "\\\"", "\n", "\\n", "\t", "\\t", "\r", "\\r")
+	return "\"" + r.Replace(t) + "\""
+}
+
+func writePo(path, lang string, entries [][2]string) error {
+	var sb strings.Builder
+	sb.WriteString("msgid \"\"\nmsgstr \"\"\n\t\"Content-Type: text/plain; charset=UTF-8\\n\"\n\t\"Language: " + lang + "\\n\"\n")
+	seen := map[string]bool{}
+	for _, e := range entries {
+		if e[0] == "" || seen[e[0]] {
+			continue
+		}
+		seen[e[0]] = true
+		sb.WriteString("\nmsgid " + poQuote(e[0]) + "\nmsgstr " + poQuote(e[1]) + "\n")
+	}
+	if err := os.MkdirAll(filepath.Dir(path), 0o700); err != nil {
+		return err
+	}
+	return os.WriteFile(path, []byte(sb.String()), 0o600)
+}
+
+// WritePo writes the gettext catalogues of the application below dir.
+func (s *Shared) WritePo(dir string) error {
+	a := s.App
+	var tpls, menus [][2]string
+	for _, n := range a.Nodes {
+		tpls = append(tpls, [2]string{n.Name, n.Tpl})
+	}
+	var labels []string
+	for k := range a.Menus {
+		labels = append(labels, k)
+	}
+	sort.Strings(labels)
+	for _, k := range labels {
+		menus = append(menus, [2]string{k, a.Menus[k]})
+	}
+	if err := writePo(filepath.Join(dir, "eng", resource.TemplateKeyPoDomain+".po"), "eng", tpls); err != nil {
+		return err
+	}
+	if err := writePo(filepath.Join(dir, "eng", resource.MenuKeyPoDomain+".po"), "eng", menus); err != nil {
+		return err
+	}
+	if err := writePo(filepath.Join(dir, "eng", resource.PoDomain+".po"), "eng", nil); err != nil {
+		return err
+	}
+	for _, tr := range a.Trans {
+		var es [][2]string
+		var ks []string
+		for k := range tr.Templates {
+			ks = append(ks, k)
+		}
+		sort.Strings(ks)
+		for _, k := range ks {
+			if n := a.Node(k); n != nil {
+				es = append(es, [2]string{n.Tpl, tr.Templates[k]})
+			}
+		}
+		ks = nil
+		for k := range tr.Menus {
+			ks = append(ks, k)
+		}
+		sort.Strings(ks)
+		for _, k := range ks {
+			def, ok := a.Menus[k]
+			if !ok {
+				def = k
+			}
+			es = append(es, [2]string{def, tr.Menus[k]})
+		}
+		if err := writePo(filepath.Join(dir, tr.Lang, resource.PoDomain+".po"), tr.Lang, es); err != nil {
+			return err
+		}
+	}
+	return nil
+}
+
+func (s *Shared) poResource(rec *Recorder) resource.Resource {
+	a := s.App
+	def, err := lang.LanguageFromCode("eng")
+	if err != nil {
+		panic(err)
+	}
+	rs := resource.NewPoResource(def, s.PoDir)
+	for _, tr := range a.Trans {
+		ln, err := lang.LanguageFromCode(tr.Lang)
+		if err != nil {
+			panic(err)
+		}
+		rs = rs.WithLanguage(ln)
+	}
+	rs.WithCodeGetter(func(ctx context.Context, sym string) ([]byte, error) {
+		b, ok := s.Code[sym]
+		if !ok {
+			return nil, fmt.Errorf("no such node: %s", sym)
+		}
+		return b, nil
+	})
+	rs.WithEntryFuncGetter(func(ctx context.Context, sym string) (resource.EntryFunc, error) {
+		if a.Sym(sym) == nil {
+			return nil, fmt.Errorf("unknown function: %s", sym)
+		}
+		return func(ctx context.Context, nodeSym string, input []byte) (resource.Result, error) {
+			n, _ := ctx.Value(callOrdinalKey{}).(int)
+			return a.scripted(sym, n, ctxLang(ctx), input)
+		}, nil
+	})
+	return &recResource{inner: rs, rec: rec}
+}
+
 func (s *Shared) Resource(rec *Recorder) resource.Resource {
 	if s.UseDb {
 		return s.dbResource(rec)
+	}
+	if s.UsePo {
+		return s.poResource(rec)
 	}
 	a := s.App
 	rs := resource.NewMenuResource()
